@@ -28,6 +28,7 @@ Testcases and preferably improvements are most welcome.
 
 from __future__ import print_function, unicode_literals
 
+import codecs
 import logging
 logger = logging.getLogger(__name__)
 
@@ -89,6 +90,9 @@ def _join_attachment(ns_soap_env, href_id, envelope, payload, prefix=True,
             message = child
             break
 
+    if message is None:
+        raise ValidationError(None, "SOAP message not found")
+
     idprefix = ''
 
     if prefix:
@@ -137,6 +141,11 @@ def collapse_swa(ctx, content_type, ns_soap_env):
     if charset is None:
         charset = 'ascii'
 
+    try:
+        codecs.lookup(charset)
+    except LookupError:
+        raise ValidationError(charset, "Unknown charset %r")
+
     boundary = content_data.get('boundary', None)
     if boundary is None:
         raise ValidationError(None, u"Missing 'boundary' value from "
@@ -173,7 +182,9 @@ def collapse_swa(ctx, content_type, ns_soap_env):
         # detect main soap section
         if (part.get('Content-ID') and part.get('Content-ID') == root) or \
                 (root is None and part == msg.get_payload()[0]):
-            soapmsg = part.get_payload()
+            # bytes as they came, so that the parser gets to see the xml
+            # declaration (and does not get text that has one).
+            soapmsg = part.get_payload(decode=True)
             continue
 
         # binary packages
@@ -184,9 +195,15 @@ def collapse_swa(ctx, content_type, ns_soap_env):
         else:
             payload = part.get_payload()
 
-        cid = part.get("Content-ID").strip("<>")
+        cid = part.get("Content-ID")
+        if cid is not None:
+            cid = cid.strip("<>")
         cloc = part.get("Content-Location")
         numreplaces = None
+
+        if soapmsg is None:
+            raise ValidationError(None, "The first part of a multipart request "
+                                                   "must be the soap envelope")
 
         # Check for Content-ID and make replacement
         if cid:
